@@ -163,3 +163,29 @@ def feed_symm_kernel(report, tier):
         "'d' matrix long enough for the block); its missing argument "
         'validation is a memory-safety matter (C19 class), not part of this '
         'property')
+
+
+
+KERNELS = ('scale', 'scale2', 'pack', 'pack2', 'unpack', 'sprod', 'sinv',
+           'trisc', 'triusc', 'sdot')
+
+
+def feed_kernel_frames(report, tier):
+    """the frames that the Python-side library contracts assume for the
+    misc.* kernels ("modifies only x"), discharged on misc_solvers.c: every
+    store of a kernel goes into an argument listed as modified by
+    contracts/py/extern_cvxopt.py or into the kernel's own work space"""
+    from engine import cside
+    from engine.checks import c_common
+    t = 10000 if tier == 'quick' else 120000
+    reps = cside.run_tasks([{'cfile': 'misc_solvers.c', 'fn': f,
+                             'mode': 'spec',
+                             'module': 'contracts.c.misc_spec',
+                             'timeout_ms': t} for f in KERNELS])
+    c_common.feed(report, reps, ('kernel-frame', 'covered'), need_spec=True)
+    report.assumptions.append(
+        'misc.* kernels: frame proved on misc_solvers.c by region identity '
+        '(which buffer a BLAS/LAPACK call writes); the extent of the writes '
+        'inside that buffer and the kernels\' missing argument validation '
+        'are not part of this property (C08/C19 class); misc.max_step and '
+        'the Python fall-backs (use_C = False) are not covered')
